@@ -472,12 +472,15 @@ theorem mutatePaths_last_attrs (c : Cfg) (fs fs' : FS) (ms : List Mutation) (m :
 
 def wCfg : Cfg := Cfg.impl .tarfs
 
+def wHdr : Hdr :=
+  { typeflag := 48, name := ['b', '/', 'p'], mode := 0o644, size := 1, checksum := some ['s'],
+    content := ['x'], pkgName := ['p'], pkgOrigin := ['p'] }
+
 /-- a tree with a directory `b`, a file `b/t` (mode 0755, root) and a package file `b/p` with body `x` -/
 def wFS : FS :=
   (run wCfg FS.empty
     [.mkdirAll ['b'] 0o755, .writeFile ['b', '/', 't'] ['x'] 0o755,
-     .writeHeader { typeflag := 48, name := ['b', '/', 'p'], mode := 0o644, size := 1, checksum := some ['s'],
-                    content := ['x'], pkgName := ['p'], pkgOrigin := ['p'] }]).1
+     .writeHeader wHdr]).1
 
 def wSymlink : Mutation :=
   { path := ['l'], type := tSymlink, uid := 1000, gid := 1000, perms := 0o777, source := ['b', '/', 't'] }
@@ -521,6 +524,36 @@ theorem hardlink_ok_example :
       (mutateOne wCfg wFS { path := ['h'], type := tHardlink, uid := 7, gid := 8, perms := 0o600, source := ['b', '/', 't'] }).1
       { path := ['h'], type := tHardlink, uid := 7, gid := 8, perms := 0o600, source := ['b', '/', 't'] } = [] := by
   decide +kernel
+
+theorem inv_wFS : FS.Inv wFS := by
+  have h0 := Inv.empty
+  have h1 := inv_step' wCfg FS.empty (.mkdirAll ['b'] 0o755) h0 (by intro p q h; cases h)
+  have h2 := inv_step' wCfg _ (.writeFile ['b', '/', 't'] ['x'] 0o755) h1 (by intro p q h; cases h)
+  have h3 := inv_step' wCfg _ (.writeHeader wHdr) h2 (by intro p q h; cases h)
+  exact h3
+
+/-- the full statement for `symlink` mutations — type, target **and** the declared ownership on
+the link entry — … -/
+def symlink_full : Prop :=
+  ∀ (fs fs' : FS) (m : Mutation), FS.Inv fs → m.type = tSymlink → mutateOne wCfg fs m = (fs', none) →
+    specMutation wCfg fs' m = []
+
+/-- … fails (F13a); `symlink_post` is the part that holds -/
+theorem symlink_full_fails : ¬ symlink_full := by
+  intro h
+  have hw := symlink_owner_lands_on_target
+  exact hw.2.2.2 (h wFS _ wSymlink inv_wFS rfl (Prod.ext rfl hw.1))
+
+/-- the full statement for `empty-file` mutations … -/
+def empty_file_full : Prop :=
+  ∀ (fs fs' : FS) (m : Mutation), FS.Inv fs → m.type = tEmptyFile → mutateOne wCfg fs m = (fs', none) →
+    specMutation wCfg fs' m = []
+
+/-- … fails on package-backed paths (F13d = F17b) -/
+theorem empty_file_full_fails : ¬ empty_file_full := by
+  intro h
+  have hw := empty_file_keeps_package_content
+  exact hw.2.2.2 (h wFS _ wEmpty inv_wFS rfl (Prod.ext rfl hw.1))
 
 /-! ## ties: the source the model was written from (regenerated on every run) -/
 
